@@ -294,6 +294,53 @@ static int enumerate(int shard, int nshards, const char *tier) {
         st.nontrivial(fnv(doc.data(), doc.size()));
     }
     st.counters["enum_max_nodes"] = N;
+    // C14 integer sweep: q * 10^k + r for every digit-group size k = 1..18, q at every power of two (-1, 0, +1) that fits and
+    // r with and without leading zeros in the low group (0, 5, 10^(k-1)-1, 10^(k-1), 10^k-1), both signs - where a hand-written
+    // decimal formatter splits, pads and narrows. ~30 000 integers, eight per document.
+    if (!is13() && shard == 0) {
+        std::vector<int64_t> ints;
+        uint64_t p10 = 1;
+        for (unsigned k = 1; k <= 18; k++) {
+            p10 *= 10;
+            for (unsigned j = 0; j < 63; j++)
+                for (int d = -1; d <= 1; d++) {
+                    uint64_t q = (1ULL << j) + (uint64_t)(int64_t)d;
+                    if (q == 0 || q > (uint64_t)INT64_MAX / p10) continue;
+                    const uint64_t rs[] = {0, 5, p10 / 10 - 1, p10 / 10, p10 - 1};
+                    for (uint64_t r : rs) {
+                        uint64_t v = q * p10 + r;
+                        if (v > (uint64_t)INT64_MAX) continue;
+                        ints.push_back((int64_t)v);
+                        ints.push_back(-(int64_t)v);
+                    }
+                }
+        }
+        for (size_t at = 0; at < ints.size(); at += 8) {
+            Value tree;
+            tree.k = ref::K_OBJ;
+            for (size_t i = at; i < at + 8 && i < ints.size(); i++) {
+                Value v;
+                v.k = ref::K_INT;
+                v.i = ints[i];
+                v.has_name = true;
+                v.name = Bytes(1, (uint8_t)('a' + (i - at)));
+                tree.c.push_back(v);
+            }
+            Bytes doc = ref::encode(tree);
+            try {
+                check14(doc, tree, false, 1, fmt("integer sweep, first value %lld", (long long)ints[at]));
+            } catch (const Failure &) {
+                std::vector<uint8_t> out(doc.size() + 8);
+                size_t n = wrap_raw_doc(doc.data(), doc.size(), 0u, out.data(), out.size());
+                vh_save_fail_case(out.data(), n);
+                throw;
+            }
+            st.evaluations++;
+            st.count("int_sweep_docs");
+            st.nontrivial(fnv(doc.data(), doc.size()));
+        }
+        st.counters["int_sweep_values"] = ints.size();
+    }
     return 0;
 }
 
